@@ -83,7 +83,7 @@ func init() {
 		rule:   "one case = one simulated run: a script of 0..8 Write/WriteString calls of sizes 0..64KiB (one run in eight: 64 KiB..2 GiB, the total passing 2^31 and 2^32) over a fault-injecting wrapped writer, then Close, against 1..2 consumers of four temperaments, under a seeded schedule; non-trivial = at least one context switch where the running task could have continued, forced pre-emption or fired fault; distinct = distinct hash of the full event history",
 		assume: []string{"simulated channel semantics conform to the Go specification (simrt conformance suite)", "sampling, not proof: <=8 operations, <=2 consumers per run"},
 	}
-	worlds["laneworld"].probes = map[string][]string{"*": {"select.multi_ready", "non_positive_push_timeout", "task_pushes_a_task", "push_timeout_fired", "push_ctx_error", "cancel_while_push_in_flight", "cancel_with_tasks_pending", "hol_state_with_pinned_workers", "pending_exact_nonzero", "many_lanes", "concurrent_waiters", "pending_exact_after_shutdown", "nil_task_pushed", "long_history", "concurrent_recover_2plus", "headcount_checked", "clock.jump", "ctx.cancel_midrun", "ctx.deadline_fired", "ctx.cancel_before_gates",
+	worlds["laneworld"].probes = map[string][]string{"*": {"select.multi_ready", "non_positive_push_timeout", "task_pushes_a_task", "push_timeout_fired", "push_ctx_error", "cancel_while_push_in_flight", "cancel_with_tasks_pending", "hol_state_with_pinned_workers", "pending_exact_nonzero", "many_lanes", "concurrent_waiters", "long_deadline", "long_deadline_checked", "pending_exact_after_shutdown", "nil_task_pushed", "long_history", "concurrent_recover_2plus", "headcount_checked", "clock.jump", "ctx.cancel_midrun", "ctx.deadline_fired", "ctx.cancel_before_gates",
 		"cancel_with_queue_goroutine_blocked_in_handover", "cancel_with_queue_goroutine_about_to_hand_over", "cancel_with_worker_idle", "cancel_with_queue_goroutine_idle",
 		"cancel_with_producer_blocked_on_full_lane", "cancel_with_producer_about_to_enqueue", "cancel_with_worker_mid_task"}}
 	worlds["progressworld"].probes = map[string][]string{"*": {"consumer_absent_until_close", "consumer_walked_away", "consumer_late", "consumer_slow", "stringwriter_path", "total_beyond_2GiB", "over_a_thousand_writes", "write.short", "write.error_partial", "write.error_zero"}}
@@ -113,7 +113,7 @@ func init() {
 		name: "fsworld", pkgs: []string{"util/osutil"}, quick: 8000, thorough: 20000, enum: true, level: "fault_enumeration",
 		real:   []string{"util/osutil/file.go (CopyFile, MoveFile: control flow, defers, error handling)", "io.Copy (32 KiB loop)"},
 		stub:   []string{"the file system behind package os (simgo/shim/sos: inodes, links, symlinks, path resolution, two devices, open file descriptions, O_TRUNC at open, rename/unlink semantics) with per-call fault plans", "no concurrency in this property: the scheduler is idle"},
-		rule:   "cases = (a) every scenario of {CopyFile, MoveFile} x 9 source contents (0..1 MiB, one with an all-zero middle copy block; a tenth of 5 MiB + 3 bytes is drawn by the seeded part only) x {regular, missing, via symlink} x 19 destination layouts (missing, shorter, longer, same length with other bytes, same path, ./ and dir/../ spellings, symlink to source, hard link of source, directory, parent missing, parent is a file, other mount missing/existing, dangling symlink, symlink to another file, symlink on the other mount to the source, the source's own name or a fresh name reached through a symlink to its directory), fault-free; (b) for each scenario every single-fault placement: each call of its recorded trace x each errno applicable to that primitive (writes additionally x {0, half, all-but-one} bytes written before the error) ; (c) two-call histories in one process: every single-fault placement in an earlier CopyFile / MoveFile (4 sizes x 6 destination layouts) followed by a fault-free CopyFile or cross-mount MoveFile - (a), (b) and (c) are enumerated completely; (d) seeded histories of up to three calls (earlier calls in their own directories, three in four failed by one fault) whose last call carries a plan of up to three faults over a random scenario; every call of a history is held to the oracle, fault-free histories are also run by the unrewritten package on the real file system in a child process. distinct = distinct hash of (scenario, call trace with faults, result); every case is non-trivial (it runs the operation)",
+		rule:   "cases = (a) every scenario of {CopyFile, MoveFile} x 10 source contents (0..1 MiB, one with an all-zero middle copy block, one whose last two copy blocks are all zeros; a tenth of 5 MiB + 3 bytes is drawn by the seeded part only) x {regular, missing, via symlink} x 19 destination layouts (missing, shorter, longer, same length with other bytes, same path, ./ and dir/../ spellings, symlink to source, hard link of source, directory, parent missing, parent is a file, other mount missing/existing, dangling symlink, symlink to another file, symlink on the other mount to the source, the source's own name or a fresh name reached through a symlink to its directory), fault-free; (b) for each scenario every single-fault placement: each call of its recorded trace x each errno applicable to that primitive (writes additionally x {0, half, all-but-one} bytes written before the error) ; (c) two-call histories in one process: every single-fault placement in an earlier CopyFile / MoveFile (4 sizes x 6 destination layouts) followed by a fault-free CopyFile or cross-mount MoveFile - (a), (b) and (c) are enumerated completely; (d) seeded histories of up to three calls (earlier calls in their own directories, three in four failed by one fault) whose last call carries a plan of up to three faults over a random scenario; every call of a history is held to the oracle, fault-free histories are also run by the unrewritten package on the real file system in a child process. distinct = distinct hash of (scenario, call trace with faults, result); every case is non-trivial (it runs the operation)",
 		assume: []string{"the simulated file system is faithful where the property looks: every fault-free scenario is also executed by the unrewritten package on the real file system (second mount: /dev/shm) and must agree in error class and resulting contents", "errors surfacing only at Close and power loss are outside the property's fault list"},
 	}
 	worlds["fsworld"].probes = map[string][]string{"*": {"traces_validated_against_real_fs", "fs.rename:EXDEV", "fs.write:ENOSPC", "fs.read:EIO", "fs.unlink:EPERM", "fs.truncate:EIO", "fs.fstat:EIO"}}
@@ -123,12 +123,12 @@ func init() {
 		"C15": {"panic_with_long_stack_trace", "zero_length_first_write", "abort_handler_panic", "unhashable_panic_value", "mounted_sub_router", "panic_storm", "body_via_io_copy", "flush_before_writing", "panic_before_writing", "panic_after_status", "panic_after_partial_body", "client.write_error", "pool.stale_pick"}}
 	propWorld["C05"] = "httpworld"
 	propWorld["C15"] = "httpworld"
-	worlds["logworld"].probes = map[string][]string{"*": {"clock_moves_between_records", "line_over_pool_limit", "message_over_pool_limit", "message_over_a_mebibyte", "message_needing_quotes", "line_near_pool_limit", "long_key_path", "group_name_reused", "empty_derivation", "siblings_of_derived_parent", "inline_group", "empty_group", "odd_key", "group_storm", "malformed_args", "below_threshold", "slow_write", "folded_compared", "pool.miss_with_items", "pool.stale_pick", "sink.short_write", "sink.write_error"}}
+	worlds["logworld"].probes = map[string][]string{"*": {"clock_moves_between_records", "line_over_pool_limit", "message_over_pool_limit", "message_over_a_mebibyte", "message_needing_quotes", "line_near_pool_limit", "long_key_path", "group_name_reused", "empty_derivation", "siblings_of_derived_parent", "inline_group", "empty_group", "threshold_between_levels", "odd_key", "group_storm", "malformed_args", "below_threshold", "slow_write", "folded_compared", "pool.miss_with_items", "pool.stale_pick", "sink.short_write", "sink.write_error"}}
 	propWorld["C02"] = "logworld"
 	propWorld["C03"] = "logworld"
 	worlds["filterworld"].probes = map[string][]string{
-		"C11": {"removed_slot_before_switch", "long_history", "over_a_thousand_removes", "crossed_switch_during_run", "remove_after_migration"},
-		"C12": {"crossed_switch_while_readers_run", "matchall_toggled", "lookup_overlaps_writers", "lookup_with_either_answer_legal", "removed_slot_before_switch"}}
+		"C11": {"removed_slot_before_switch", "second_filter_matches_all", "long_history", "over_a_thousand_removes", "crossed_switch_during_run", "remove_after_migration"},
+		"C12": {"crossed_switch_while_readers_run", "second_filter_matches_all", "matchall_toggled", "lookup_overlaps_writers", "lookup_with_either_answer_legal", "removed_slot_before_switch"}}
 	propWorld["C11"] = "filterworld"
 	propWorld["C12"] = "filterworld"
 }
